@@ -6,11 +6,13 @@ import (
 	stderrors "errors"
 	"fmt"
 	"io"
+	"io/fs"
 	"math/rand/v2"
 	"net/netip"
 	"slices"
 	"sort"
 	"strings"
+	"time"
 
 	"github.com/AdguardTeam/golibs/hostsfile"
 	"github.com/AdguardTeam/golibs/netutil"
@@ -101,6 +103,43 @@ type namedFragReader struct {
 func (r namedFragReader) Name() string { return r.name }
 
 var fragModes = []string{"whole", "byte", "chunks", "zeros", "data+eof"}
+
+// Readers of other dynamic shapes: the source name is what NamedReader.Name returns and nothing
+// else, whatever further interfaces the reader implements (fs.File with another Stat name,
+// fmt.Stringer, io.WriterTo is deliberately absent: it would bypass the fragmentation).
+
+type c08FileInfo struct{ name string }
+
+func (i c08FileInfo) Name() string       { return i.name }
+func (i c08FileInfo) Size() int64        { return 0 }
+func (i c08FileInfo) Mode() fs.FileMode  { return 0o644 }
+func (i c08FileInfo) ModTime() time.Time { return time.Time{} }
+func (i c08FileInfo) IsDir() bool        { return false }
+func (i c08FileInfo) Sys() any           { return nil }
+
+// namedFileReader: a NamedReader that is also an fs.File whose Stat reports another name.
+type namedFileReader struct{ namedFragReader }
+
+func (r namedFileReader) Stat() (fs.FileInfo, error) {
+	return c08FileInfo{name: "stat-name-of-the-file"}, nil
+}
+func (r namedFileReader) Close() error   { return nil }
+func (r namedFileReader) String() string { return "stringer-name" }
+
+// fileReader: an fs.File (and fmt.Stringer) that is NOT a NamedReader: no source name.
+type fileReader struct{ *fragReader }
+
+func (r fileReader) Stat() (fs.FileInfo, error) {
+	return c08FileInfo{name: "stat-name-of-the-file"}, nil
+}
+func (r fileReader) Close() error   { return nil }
+func (r fileReader) String() string { return "stringer-name" }
+
+var (
+	_ fs.File               = namedFileReader{}
+	_ hostsfile.NamedReader = namedFileReader{}
+	_ fs.File               = fileReader{}
+)
 
 // ---- scripted reader (C08.std.scan)
 
@@ -451,8 +490,13 @@ type parseOutcome struct {
 func runParse(hs bool, named bool, name string, readErr bool, stream []byte, mode string, seed uint64, buf []byte) parseOutcome {
 	fr := &fragReader{data: stream, mode: mode, rng: rand.New(rand.NewPCG(seed, 77)), readErr: readErr}
 	var src io.Reader = fr
-	if named {
+	switch {
+	case named && seed%2 == 1:
+		src = namedFileReader{namedFragReader{fragReader: fr, name: name}}
+	case named:
 		src = namedFragReader{fragReader: fr, name: name}
+	case seed%2 == 1:
+		src = fileReader{fr}
 	}
 	var o parseOutcome
 	var err error
@@ -555,7 +599,7 @@ func evalC08Parse(f []string) Result {
 		if i == 0 {
 			first = o
 		} else if o.impl != first.impl && direct == "ok" {
-			direct = c07fail("fragmentation", "outcome under reader mode %q differs from mode %q: %s  vs  %s", mode, fragModes[0], o.impl, first.impl)
+			direct = c07fail("fragmentation", "outcome under reader mode %q differs from mode %q (fragmentation of the reads; odd modes: the reader is also an fs.File with another Stat name): %s  vs  %s", mode, fragModes[0], o.impl, first.impl)
 		}
 	}
 	// the property text, evaluated on the outcome
